@@ -59,7 +59,30 @@ Theorem C20_model_range_check_is_the_translated_constructor :
   else Ok (days_from_civil a, days_from_civil b).
 Proof. exact window_of_range_uses_constructor. Qed.
 
+(* the pipeline find_days_to_exclude + expand_time_windows.  On entries (model): an accepted list expands to exactly the
+   covered days, each once; a list is accepted iff no entry is malformed, invalid or reversed *)
+Theorem C20_pipeline_exact : forall es ds, days_to_exclude es = Ok ds ->
+  NoDup ds /\ forall d, In d ds <-> exists e, In e es /\ covers e d.
+Proof. exact days_to_exclude_exact. Qed.
+Theorem C20_pipeline_accepts_iff :
+  forall es, (exists ds, days_to_exclude es = Ok ds) <-> forall e, In e es -> window_of e <> RaiseValueError.
+Proof. exact days_to_exclude_accepts_iff. Qed.
+(* ... and on the code: find_days_to_exclude translated over the pieces of each entry's text (what pd.Timestamp makes of
+   the text between '-' signs: Some day / None = ValueError) composed with the translated expansion is the model, and
+   reads no piece outside the list it was given *)
+Theorem C20_translated_pipeline_is_model :
+  forall es pss, Forall2 pieces_of es pss -> gen_days_to_exclude pss = days_to_exclude es.
+Proof. exact gen_days_to_exclude_is_model. Qed.
+Theorem C20_translated_pipeline_exact : forall es pss ds, Forall2 pieces_of es pss -> gen_days_to_exclude pss = Ok ds ->
+  NoDup ds /\ forall d, In d ds <-> exists e, In e es /\ covers e d.
+Proof. intros es pss ds H. rewrite (gen_days_to_exclude_is_model es pss H). apply days_to_exclude_exact. Qed.
+Theorem C20_translated_parser_never_reads_outside_its_pieces : forall pss, gen_find_days_to_exclude pss <> RaisesIndexError.
+Proof. exact gen_find_days_never_index_error. Qed.
+
 Print Assumptions C20_expand_spec.
+Print Assumptions C20_pipeline_exact.
+Print Assumptions C20_translated_pipeline_is_model.
+Print Assumptions C20_translated_pipeline_exact.
 Print Assumptions C20_translated_expand_spec.
 Print Assumptions C20_translated_expand_no_duplicates.
 Print Assumptions C20_translated_window_constructor_rejects_exactly_reversed.
@@ -72,3 +95,10 @@ Example C20_example :
   days_to_exclude [Range (2020, 2, 27) (2020, 3, 1); Single (2020, 2, 28); Range (2019, 12, 31) (2020, 1, 1)]
   = Ok [18319; 18321; 18322; 18320; 18261; 18262].
 Proof. vm_compute. reflexivity. Qed.
+Example C20_translated_example :
+  gen_days_to_exclude [[Some 18319; Some 18322]; [Some 18320]; [Some 18261; Some 18262]]
+  = Ok [18319; 18321; 18322; 18320; 18261; 18262]
+  /\ gen_days_to_exclude [[Some 18319; Some 18322]; [Some 18322; Some 18321]] = RaiseValueError
+  /\ gen_days_to_exclude [[Some 18319]; [None]] = RaiseValueError
+  /\ gen_days_to_exclude [[Some 1; Some 2; Some 3]] = RaiseValueError.
+Proof. vm_compute. repeat split; reflexivity. Qed.
